@@ -49,7 +49,7 @@ func (a *Addressing) ExtractMailbox(address string) (string, error) {
 		return "", fmt.Errorf("domain part %q in %q failed validation", domain, address)
 	}
 
-	return local + "@" + domain, nil
+	return local + "@" + canonicalDomain(domain), nil
 }
 
 // NewRecipient parses an address into a Recipient. This is used for parsing RCPT TO arguments,
@@ -238,7 +238,16 @@ func extractDomainMailbox(address string) (string, error) {
 		return "", fmt.Errorf("domain part %q in %q failed validation", domain, address)
 	}
 
-	return domain, nil
+	return canonicalDomain(domain), nil
+}
+
+// canonicalDomain lower-cases a validated domain part so that mailbox names do not depend on
+// letter case; the tag of an IPv6 address literal is preserved.
+func canonicalDomain(domain string) string {
+	if strings.HasPrefix(domain, "[IPv6:") {
+		return "[IPv6:" + strings.ToLower(domain[6:])
+	}
+	return strings.ToLower(domain)
 }
 
 // parseEmailAddress unescapes an email address, and splits the local part from the domain part.  An
@@ -395,6 +404,9 @@ func parseMailboxName(localPart string) (result string, err error) {
 	}
 	if idx := strings.Index(result, "+"); idx > -1 {
 		result = result[0:idx]
+	}
+	if result == "" {
+		return "", errors.New("mailbox name cannot be empty")
 	}
 	return result, nil
 }
